@@ -25,7 +25,7 @@ for p in props:
          "text":n.get("text","Structural necessary conditions of the property (%d rule groups), decided for all paths of the anchored functions on the type-checked SSA of /repo's working tree. This is not a proof of the behavioural statement: it decides the part of it that is visible in the shape of the code; see DESIGN.md for what is not decided."%len(rules[pid])),
          "design_ref":"DESIGN.md §5 "+pid},
       "level_note":n.get("note","Trusted: go/types+go/ssa (x/tools v0.29.0) model of the source, Go runtime/stdlib contracts (sync, context, time, os), third-party libraries (protobuf, memberlist, yaml, prometheus/common). Rules decide guards, ordering, writer/caller sets, locksets and decision tables, never runtime values or timing."),
-      "technique":n.get("technique","static analysis over go/ssa: cut-reachability (guards, ordering, must-pass), decision tables, writer/caller sets, locksets, dataflow provenance")
+      "technique":n.get("technique","static analysis of the type-checked program (go/packages + go/ssa, x/tools v0.29.0), no execution and no solver: path-sensitive cut-reachability on the SSA control-flow graph (guarded effects, ordering, must-pass-through, decision tables over branch literals), whole-program writer/caller sets, locksets, backward dataflow provenance, sibling agreement; helpers absent from the reference tree are flattened into their callers before the rules run")
     })
 na=[{"property_id":p['id'],"reason":notes.get(p['id'],{}).get("na","rules not implemented yet in this round (design: DESIGN.md §5); the property will be claimed once its rules exist")} for p in props if p['id'] not in rules]
 base=json.load(open('/root/.vp/BASELINE.json'))
